@@ -145,15 +145,25 @@ Definition pipes_crash_statement (fx : fixes) : Prop :=
   let md := run_steps fx (m, d) steps in
   pipes_init (killed (fst md) (snd md)) = Some (m_pipes (fst md)).
 
+Lemma do_write_pdat fx m d p ts : d_pdat d = Some (Whole (m_pipes m)) ->
+  d_pdat (snd (do_write fx m d p ts)) = Some (Whole (m_pipes (fst (do_write fx m d p ts)))).
+Proof.
+  intros H. unfold do_write.
+  destruct (negb (mem_nat p (m_parts m))); destruct (lookup p (m_cur m)); cbn [fst snd m_pipes d_pdat];
+    rewrite ?(proj1 (proj2 (tsave_other fx d _))); exact H.
+Qed.
+
 Lemma do_step_pdat fx m d s : fx_pipes fx = true -> d_pdat d = Some (Whole (m_pipes m)) ->
   d_pdat (snd (do_step fx (m, d) s)) = Some (Whole (m_pipes (fst (do_step fx (m, d) s)))).
 Proof.
-  intros F H. destruct s as [p ts| |n|n]; cbn [do_step].
-  - destruct (negb (mem_nat p (m_parts m))); destruct (lookup p (m_cur m)); cbn [fst snd m_pipes d_pdat];
-      rewrite ?(proj1 (proj2 (tsave_other fx d _))); exact H.
+  intros F H. destruct s as [p ts| |n|n|p|s t]; cbn [do_step].
+  - apply do_write_pdat. exact H.
   - cbn. exact H.
   - destruct (mem_nat n (m_pipes m)); [exact H|]. rewrite F. reflexivity.
   - destruct (mem_nat n (m_pipes m)); [|exact H]. rewrite F. reflexivity.
+  - destruct (mem_nat p (m_parts m)); [|exact H]. cbn [fst snd m_pipes d_pdat].
+    rewrite (proj1 (proj2 (tsave_other fx d _))). exact H.
+  - destruct (mem_nat s (m_parts m)); [|exact H]. apply do_write_pdat. exact H.
 Qed.
 
 Lemma pipes_crash_fixed fs fa : pipes_crash_statement (mkFix fs fa true).
@@ -380,11 +390,11 @@ Proof.
   - cbn [m_buf map]. intros p [].
 Qed.
 
-Lemma do_step_consistent fx m d s : consistent m d -> keys_nodup d ->
-  consistent (fst (do_step fx (m, d) s)) (snd (do_step fx (m, d) s)) /\ keys_nodup (snd (do_step fx (m, d) s)).
+Lemma do_write_consistent fx m d p ts : consistent m d -> keys_nodup d ->
+  consistent (fst (do_write fx m d p ts)) (snd (do_write fx m d p ts)) /\ keys_nodup (snd (do_write fx m d p ts)).
 Proof.
-  intros C ND. destruct s as [p ts| |n|n].
-  - destruct C as (Ht & Hj & Hb & NDb & Hc). cbn [do_step].
+  intros C ND.
+  destruct C as (Ht & Hj & Hb & NDb & Hc). unfold do_write.
     set (newp := negb (mem_nat p (m_parts m))).
     set (parts := if newp then m_parts m ++ [p] else m_parts m).
     set (d' := if newp then tsave fx d parts else d).
@@ -417,10 +427,52 @@ Proof.
         + destruct (Nat.eq_dec q p) as [->|N]; [rewrite lookup_update_same; discriminate|].
           rewrite lookup_update_other by exact N. apply Hc. exact Hq.
       - unfold keys_nodup. rewrite E2, Jd. exact ND. }
-    fold newp. fold parts. fold d'.
     destruct (lookup p (m_cur m)) as [c|] eqn:L.
     + cbn [fst snd]. apply G; reflexivity.
     + cbn [fst snd]. apply G; reflexivity.
+Qed.
+
+Lemma remove_key_keys {A} p (l : list (nat * A)) q : In q (map fst (remove_key p l)) <-> q <> p /\ In q (map fst l).
+Proof.
+  induction l as [|[r w] l IH]; cbn [remove_key map fst]; [split; [intros []|intros [_ []]]|].
+  destruct (Nat.eqb r p) eqn:E.
+  - apply Nat.eqb_eq in E. subst r. rewrite IH. split; [intros [N H]; split; [exact N|right; exact H]|].
+    intros [N [H|H]]; [congruence|split; assumption].
+  - apply Nat.eqb_neq in E. cbn [map fst]. split.
+    + intros [H|H]; [subst q; split; [exact E|left; reflexivity]|]. apply IH in H as [N H]. split; [exact N|right; exact H].
+    + intros [N [H|H]]; [left; exact H|right; apply IH; split; assumption].
+Qed.
+
+Lemma remove_key_nodup {A} p (l : list (nat * A)) : NoDup (map fst l) -> NoDup (map fst (remove_key p l)).
+Proof.
+  induction l as [|[r w] l IH]; intros ND; cbn [remove_key]; [exact ND|]. cbn [map fst] in ND. inversion ND as [|? ? Hr ND']. subst.
+  destruct (Nat.eqb r p); [exact (IH ND')|]. cbn [map fst]. constructor; [|exact (IH ND')].
+  intros C. apply remove_key_keys in C as [_ C]. exact (Hr C).
+Qed.
+
+Lemma lookup_remove_key_other {A} p q (l : list (nat * A)) : q <> p -> lookup q (remove_key p l) = lookup q l.
+Proof.
+  intros N. induction l as [|[r w] l IH]; cbn [remove_key lookup]; [reflexivity|].
+  destruct (Nat.eqb r p) eqn:E.
+  - apply Nat.eqb_eq in E. subst r. assert (Nat.eqb p q = false) as -> by (apply Nat.eqb_neq; congruence). exact IH.
+  - cbn [lookup]. destruct (Nat.eqb r q); [reflexivity|exact IH].
+Qed.
+
+Lemma with_data_remove_key p j q : In q (map fst (filter has_data (remove_key p j))) -> q <> p /\ In q (map fst (filter has_data j)).
+Proof.
+  induction j as [|[r w] j IH]; cbn [remove_key filter map]; [intros []|].
+  destruct (Nat.eqb r p) eqn:E.
+  - intros H. destruct (IH H) as [N I]. split; [exact N|]. destruct (has_data (r, w)); [right; exact I|exact I].
+  - apply Nat.eqb_neq in E. cbn [filter]. destruct (has_data (r, w)); cbn [map fst].
+    + intros [H|H]; [subst q; split; [exact E|left; reflexivity]|]. destruct (IH H) as [N I]. split; [exact N|right; exact I].
+    + exact IH.
+Qed.
+
+Lemma do_step_consistent fx m d s : consistent m d -> keys_nodup d ->
+  consistent (fst (do_step fx (m, d) s)) (snd (do_step fx (m, d) s)) /\ keys_nodup (snd (do_step fx (m, d) s)).
+Proof.
+  intros C ND. destruct s as [p ts| |n|n|p|s t].
+  - cbn [do_step]. apply do_write_consistent; assumption.
   - cbn [do_step]. apply flush_all_consistent; assumption.
   - cbn [do_step]. destruct (mem_nat n (m_pipes m)); [split; assumption|]. cbn [fst snd].
     destruct C as (Ht & Hj & Hb & NDb & Hc).
@@ -428,6 +480,22 @@ Proof.
   - cbn [do_step]. destruct (mem_nat n (m_pipes m)); [|split; assumption]. cbn [fst snd].
     destruct C as (Ht & Hj & Hb & NDb & Hc).
     destruct (fx_pipes fx); (split; [split; [exact Ht|split; [exact Hj|split; [exact Hb|split; [exact NDb|exact Hc]]]]|exact ND]).
+  - cbn [do_step]. destruct (mem_nat p (m_parts m)); [|split; assumption]. cbn [fst snd].
+    destruct C as (Ht & Hj & Hb & NDb & Hc).
+    assert (Fin : forall q, q <> p -> In q (m_parts m) -> In q (filter (fun x => negb (Nat.eqb x p)) (m_parts m))).
+    { intros q N I. apply filter_In. split; [exact I|]. apply negb_true_iff. apply Nat.eqb_neq. exact N. }
+    split; [split; [|split; [|split; [|split]]]|].
+    + cbn [d_tdat m_parts]. apply tsave_tdat.
+    + cbn [m_parts]. intros q Hq. unfold with_data in Hq. cbn [d_jrnl] in Hq. rewrite tsave_jrnl in Hq.
+      apply with_data_remove_key in Hq as [N I]. apply Fin; [exact N|]. apply Hj. exact I.
+    + cbn [m_parts m_buf]. intros q Hq. apply lookup_Some_keys in Hq. apply remove_key_keys in Hq as [N I].
+      apply Fin; [exact N|]. apply Hb. apply lookup_Some_keys. exact I.
+    + cbn [m_buf]. apply remove_key_nodup. exact NDb.
+    + cbn [m_buf m_cur]. intros q Hq. apply remove_key_keys in Hq as [N I].
+      rewrite lookup_remove_key_other by exact N. apply Hc. exact I.
+    + unfold keys_nodup. cbn [d_jrnl]. rewrite tsave_jrnl. apply remove_key_nodup. exact ND.
+  - cbn [do_step]. destruct (mem_nat s (m_parts m)); [|split; assumption].
+    apply do_write_consistent; assumption.
 Qed.
 
 Lemma run_steps_consistent fx l : forall m d, consistent m d -> keys_nodup d ->
@@ -446,4 +514,36 @@ Inductive reachable (fx : fixes) : mem -> disk -> Prop :=
 Lemma reachable_consistent fx m d : reachable fx m d -> consistent m d /\ keys_nodup d.
 Proof.
   intros [d0 m0 d0' l ND S]. destruct (start_consistent fx d0 m0 d0' ND S) as [C N]. apply run_steps_consistent; assumption.
+Qed.
+
+(* ---------- a dropped partition stays dropped; a pipe forwards exactly once ---------- *)
+Lemma drop_then_restart m d p : consistent m d -> keys_nodup d ->
+  let md := do_step code_fix (m, d) (SDrop p) in
+  exists m' d', start code_fix (graceful code_fix (fst md) (snd md)) = Some (m', d') /\
+                ~ In p (m_parts m') /\ (forall q, q <> p -> (In q (m_parts m') <-> In q (m_parts m))).
+Proof.
+  intros C ND md. destruct (do_step_consistent code_fix m d (SDrop p) C ND) as [C1 N1]. fold md in C1, N1.
+  destruct (clean_with_sync true true (fst md) (snd md) C1 N1) as (m' & d' & S & P & _ & _).
+  exists m', d'. split; [exact S|]. rewrite P. unfold md. cbn [do_step].
+  destruct (mem_nat p (m_parts m)) eqn:E; cbn [fst m_parts].
+  - split.
+    + intros I. apply filter_In in I as [_ I]. rewrite Nat.eqb_refl in I. discriminate I.
+    + intros q N. split; [intros I; apply filter_In in I as [I _]; exact I|].
+      intros I. apply filter_In. split; [exact I|]. apply negb_true_iff. apply Nat.eqb_neq. exact N.
+  - split; [|intros q _; reflexivity]. intros I. apply mem_nat_In in I. congruence.
+Qed.
+
+Lemma do_write_acked fx m d p ts : acked (fst (do_write fx m d p ts)) (snd (do_write fx m d p ts)) p = acked m d p ++ ts.
+Proof.
+  unfold do_write, acked.
+  assert (J : forall dd : disk, d_jrnl dd = d_jrnl d -> events_of p (d_jrnl dd) = events_of p (d_jrnl d)) by (intros dd ->; reflexivity).
+  destruct (negb (mem_nat p (m_parts m))); destruct (lookup p (m_cur m)); cbn [fst snd m_buf d_jrnl];
+    unfold get_list at 1; rewrite lookup_update_same, ?tsave_jrnl, app_assoc; reflexivity.
+Qed.
+
+Lemma drain_catches_up fx m d s t : mem_nat s (m_parts m) = true ->
+  acked m d t = firstn (length (acked m d t)) (events_of s (d_jrnl d)) ->
+  let md := do_step fx (m, d) (SDrain s t) in acked (fst md) (snd md) t = events_of s (d_jrnl d).
+Proof.
+  intros R P md. unfold md. cbn [do_step]. rewrite R. rewrite do_write_acked. rewrite P at 1. apply firstn_skipn.
 Qed.
